@@ -76,3 +76,7 @@ add("C12", "SCHED", "model_checking", "stateless preemption-bounded DFS over thr
 add("C13", "SCHED", "model_checking", "stateless preemption-bounded DFS over thread interleavings under the race detector (controlled scheduler invisible to the detector)",
     "The C11 and C12 scenario bodies without Close are explored over all interleavings up to preemption bound 1 (quick) / 2 (thorough) in a -race build whose thread hand-off (pipes, raw system calls in //go:norace code) creates no happens-before edge the detector can see: in every enumerated schedule the detector reports each conflicting access pair that olareg's own synchronisation leaves unordered. Reports are attributed to the scenario and de-duplicated by access-site pair.",
     TRUSTED + " The detector's own limits (4 shadow cells per word, bounded history, os file I/O synchronising through ioSync) apply.", "DESIGN.md section 4 C13")
+
+add("C19", "SEQ+CONF", "model_checking", "exhaustive enumeration of the flag space through the real cobra command in-process, explicit-state BFS for the rate limit on a virtual clock, real SIGTERM after every prefix of a history",
+    "Rate limit: all request/time sequences up to the depth bound for limits 1-3 and three address forms against the documented fixed window. Flag space: every true/false assignment of the 8 boolean serve flags plus each flag alone not given (quick) or every {not given,true,false} assignment (thorough, 6561) x store type, executed through the real command line in a build of cmd/olareg whose olareg.New is wrapped; configuration held by the server and a probe script compared with a table from the help texts; warnings, rate-limit, gc durations, collection disabled. Termination: real SIGTERM after every prefix of a 6-request history.",
+    TRUSTED + " TLS, address binding and verbosity flags are not covered; the signal is delivered between requests.", "DESIGN.md section 4 C19")
